@@ -18,6 +18,7 @@ import (
 	"google.golang.org/protobuf/reflect/protoregistry"
 	"google.golang.org/protobuf/types/descriptorpb"
 	"google.golang.org/protobuf/types/dynamicpb"
+	"google.golang.org/protobuf/types/known/anypb"
 	_ "google.golang.org/protobuf/types/known/emptypb" // registers google/protobuf/empty.proto
 )
 
@@ -49,6 +50,11 @@ type Node struct {
 	// of its own, named <Message>_<oneof>; the model name of group gi of node i is OneofName(i, gi).
 	Expose  [][]int `json:"expose,omitempty"`
 	Wrapper bool    `json:"wrapper,omitempty"`
+
+	// Any: the message also has a field `anyf` of type google.protobuf.Any (reflected as an AnyField: no
+	// reference to another schema). Encoding it resolves the inner type with the codec's resolver and runs
+	// a nested encode on the same codec. Only the goroutine rounds of the worker use it.
+	Any bool `json:"any,omitempty"`
 
 	// Bad = k > 0: a field of type google.protobuf.Empty, which the reflector rejects
 	// ("unsupported google type"), is declared after the first k-1 references: the type
@@ -186,6 +192,7 @@ func (u *Universe) Build() (*Built, error) {
 		deps := map[int]bool{}
 		usesExt := false
 		usesStruct := false
+		usesAny := false
 		for i, n := range u.Nodes {
 			if n.Pkg != p {
 				continue
@@ -280,6 +287,15 @@ func (u *Universe) Build() (*Built, error) {
 			if n.Bad == len(n.Refs)+1 {
 				addBad()
 			}
+			if n.Any && !n.Wrapper {
+				md.Field = append(md.Field, &descriptorpb.FieldDescriptorProto{
+					Name: proto.String("anyf"), JsonName: proto.String("anyf"), Number: proto.Int32(800),
+					Type:     descriptorpb.FieldDescriptorProto_TYPE_MESSAGE.Enum(),
+					TypeName: proto.String(".google.protobuf.Any"),
+					Label:    descriptorpb.FieldDescriptorProto_LABEL_OPTIONAL.Enum(),
+				})
+				usesAny = true
+			}
 			fd.MessageType = append(fd.MessageType, md)
 		}
 		var ds []int
@@ -295,6 +311,9 @@ func (u *Universe) Build() (*Built, error) {
 		}
 		if usesStruct {
 			fd.Dependency = append(fd.Dependency, "google/protobuf/empty.proto")
+		}
+		if usesAny {
+			fd.Dependency = append(fd.Dependency, "google/protobuf/any.proto")
 		}
 		file, err := protodesc.NewFile(fd, withGlobal{files})
 		if err != nil {
@@ -587,6 +606,24 @@ func (b *Built) Populate(i int, depth int) protoreflect.Message {
 	}
 	return msg
 }
+
+// PopulateWithAny is Populate(i, depth) with the Any field holding a populated message of node target.
+func (b *Built) PopulateWithAny(i, target, depth int) (protoreflect.Message, error) {
+	msg := b.Populate(i, depth)
+	fd := msg.Descriptor().Fields().ByName("anyf")
+	if fd == nil {
+		return msg, nil
+	}
+	inner, err := anypb.New(b.Populate(target, 1).Interface())
+	if err != nil {
+		return nil, err
+	}
+	msg.Set(fd, protoreflect.ValueOfMessage(inner.ProtoReflect()))
+	return msg, nil
+}
+
+// Types resolves the message types of the universe (for codecs that decode Any payloads).
+func (b *Built) Types() *dynamicpb.Types { return dynamicpb.NewTypes(b.Files) }
 
 // New returns an empty message of node i.
 func (b *Built) New(i int) protoreflect.Message { return dynamicpb.NewMessage(b.Msg[i]) }
